@@ -316,14 +316,32 @@ def r_cast(text):
     return text, count
 
 
-STD_NAMES = ("size_t", "memcpy", "lrintf", "lrint", "uint32_t", "uint64_t",
-             "uint8_t", "uint16_t", "int32_t", "int64_t")
+STD_NAMES = ("size_t", "memcpy", "memset", "memmove", "uint32_t", "uint64_t", "ptrdiff_t",
+             "uint8_t", "uint16_t", "int32_t", "int64_t", "int8_t", "int16_t",
+             # explicitly suffixed <cmath> functions are not overloaded: same function in C
+             "truncf", "truncl", "floorf", "floorl", "ceilf", "ceill", "roundf", "roundl", "lrintf", "lrintl",
+             "lroundf", "lroundl", "fabsf", "fabsl", "fminf", "fmaxf", "fminl", "fmaxl", "sqrtf", "rintf", "nearbyintf", "fmodf")
+STD_OVERLOADED = ("trunc", "floor", "ceil", "round", "rint", "nearbyint", "lrint", "lround", "llrint", "llround",
+                  "fabs", "sqrt", "fmin", "fmax", "fmod", "copysign")
 
 
 def r_std(text):
-    """R2: drop std:: from names that exist identically in C."""
+    """R2: drop std:: from names that exist identically in C.
+       R3: overloaded <cmath> functions -> VERIF_STDM_<name> (type-generic selection as C++ overload resolution does)."""
     rx = re.compile(r"\bstd::(" + "|".join(STD_NAMES) + r")\b")
-    return rx.subn(lambda m: m.group(1), text)
+    text, n1 = rx.subn(lambda m: m.group(1), text)
+    rx = re.compile(r"\bstd::(" + "|".join(STD_OVERLOADED) + r")\s*\(")
+    text, n2 = rx.subn(lambda m: "VERIF_STDM_" + m.group(1) + "(", text)
+    rx = re.compile(r"\bstd::(min|max)\s*\(")
+    text, n3 = rx.subn(lambda m: "VERIF_STD_" + m.group(1) + "(", text)
+    return text, n1 + n2 + n3
+
+
+def r_auto(text):
+    """R22: `auto x = e;`, `const auto x = e;`, `const auto & x = e;` -> `__auto_type x = e;` (the declared object
+    is a copy; reference-ness is dropped, which is unobservable for the read-only uses in the extracted code)."""
+    rx = re.compile(r"\b(?:const\s+)?auto\s*(?:const\s*)?&{0,2}\s*([A-Za-z_]\w*)\s*=")
+    return rx.subn(lambda m: "__auto_type " + m.group(1) + " =", text)
 
 
 def r_functional_cast(text):
@@ -530,20 +548,35 @@ def r_brace_call_arg(text, callee, dims, ctype, illformed="verif_illformed_brace
 
 
 def r_fold_or(text, idx_name, indices):
-    """R8: `return (EXPR(Idxs) | ...);` -> explicit disjunction."""
-    rx = re.compile(r"\breturn\s*\(")
-    m = rx.search(text)
-    if not m:
-        return text, 0
-    op = m.end() - 1
-    cp = match_close(text, op)
-    inner = text[op + 1:cp].strip()
-    mm = re.match(r"(.*)\|\s*\.\.\.\s*$", inner, re.S)
-    if not mm:
-        return text, 0
-    expr = mm.group(1).strip()
-    elems = ["(" + re.sub(r"\b" + re.escape(idx_name) + r"\b", str(i), expr) + ")" for i in indices]
-    return text[:m.start()] + "return (" + " | ".join(elems) + ")" + text[cp + 1:], 1
+    """R8: unary right folds `(EXPR(Idxs) op ...)` for op in | & + * , && || -> explicit expression."""
+    count = 0
+    pos = 0
+    while True:
+        m = re.search(r"(\|\||&&|[|&+*,])\s*\.\.\.\s*\)", text[pos:])
+        if not m:
+            break
+        end = pos + m.end() - 1          # index of ')'
+        # matching '(' : scan backwards
+        depth = 0
+        j = end
+        while j >= 0:
+            if text[j] == ")":
+                depth += 1
+            elif text[j] == "(":
+                depth -= 1
+                if depth == 0:
+                    break
+            j -= 1
+        if j < 0:
+            raise ExtractionError("fold expression: unbalanced")
+        op = m.group(1)
+        expr = text[j + 1:pos + m.start()].strip()
+        elems = ["(" + re.sub(r"\b" + re.escape(idx_name) + r"\b", str(i), expr) + ")" for i in indices]
+        rep = "(" + (" " + op + " ").join(elems) + ")"
+        text = text[:j] + rep + text[end + 1:]
+        pos = j + len(rep)
+        count += 1
+    return text, count
 
 
 def r_throw(text):
